@@ -6,7 +6,8 @@
 //@ assumes: error = harness type with any i64 code and an empty message; data = 4 symbolic bytes, or empty
 //@ decides: C02: the outcome built for a preparation / uncatchable failure carries exactly the given previous data byte for byte, the error's code, no next peers, the encoding of an empty call-request map, and the limit flags unchanged
 //@ outside: that execute_air_impl routes every failing step to this function with raw_prev_data (farewell_if_fail! call sites need a full run); the success / catchable half of C02 (needs complete runs)
-//@ harness: name=c02_failure_outcome_returns_prev_data props=C02 cap=1800 cost=200 sym="data: 4 any bytes (and the empty data); error code: any i64; 3 limit flags: any" bound="data length in {0,4}"
+//@ harness: name=c02_failure_outcome_returns_prev_data props=C02 cap=1800 cost=200 sym="data: 4 any bytes; error code: any i64; 3 limit flags: any" bound="data length 4"
+//@ harness: name=c02_failure_outcome_empty_prev_data props=C02 cap=1800 cost=200 sym="error code: any i64; 3 limit flags: any" bound="empty previous data (first run of a particle on a peer)"
 //@ harness: name=c19_dedup_next_peers props=C19 tier=thorough core=0 cap=2400 cost=600 sym="three peer names chosen symbolically from {p,q}" bound="list of 3; HashSet with fixed SipHash keys"
 
 use super::*;
@@ -27,17 +28,7 @@ impl std::fmt::Display for AnyError {
     }
 }
 
-#[kani::proof]
-#[kani::unwind(10)]
-#[kani::stub(std::hash::RandomState::new, random_state_stub)]
-#[kani::stub(alloc::fmt::format, fmt_stub)]
-#[kani::stub(std::thread::current::current, thread_current_stub)]
-#[kani::stub(std::thread::park, thread_park_stub)]
-#[kani::stub(std::thread::Thread::unpark, thread_unpark_stub)]
-#[kani::stub(tracing::dispatcher::get_default, dispatcher_get_default_stub)]
-#[kani::stub(tracing::span::Span::new, span_new_stub)]
-#[kani::stub(tracing::callsite::DefaultCallsite::interest, callsite_interest_stub)]
-fn c02_failure_outcome_returns_prev_data() {
+fn outcome_body(empty: bool) {
     let bytes: [u8; 4] = kani::any();
     let code: i64 = kani::any();
     let flags = SoftLimitsTriggering {
@@ -45,7 +36,6 @@ fn c02_failure_outcome_returns_prev_data() {
         particle_size_limit_exceeded: kani::any(),
         call_result_size_limit_exceeded: kani::any(),
     };
-    let empty: bool = kani::any();
     let data: Vec<u8> = if empty { Vec::new() } else { bytes.to_vec() };
     let o = from_uncatchable_error(data, AnyError(code), flags);
     kani::assert(o.ret_code == code, "C02: the outcome carries the error's code");
@@ -59,12 +49,31 @@ fn c02_failure_outcome_returns_prev_data() {
     kani::assert(o.air_size_limit_exceeded == flags.air_size_limit_exceeded && o.particle_size_limit_exceeded == flags.particle_size_limit_exceeded && o.call_result_size_limit_exceeded == flags.call_result_size_limit_exceeded, "C02/C22: limit flags passed through");
     let empty_requests = CallRequestsRepr.serialize(&CallRequests::new());
     kani::assert(matches!(&empty_requests, Ok(r) if r[..] == o.call_requests[..]), "C02: call requests are the encoding of the empty map");
-    kani::cover!(!empty && bytes[0] != 0, "non-trivial data");
-    kani::cover!(empty, "empty data");
+    kani::cover!(empty || bytes[0] != 0, "non-trivial data (or the empty data)");
+    kani::cover!(code < 0, "negative code");
     std::mem::forget(o);
     std::mem::forget(empty_requests);
 }
 
+macro_rules! outcome_harness {
+    ($name:ident, $empty:expr) => {
+        #[kani::proof]
+        #[kani::unwind(10)]
+        #[kani::stub(std::hash::RandomState::new, random_state_stub)]
+        #[kani::stub(alloc::fmt::format, fmt_stub)]
+        #[kani::stub(std::thread::current::current, thread_current_stub)]
+        #[kani::stub(std::thread::park, thread_park_stub)]
+        #[kani::stub(std::thread::Thread::unpark, thread_unpark_stub)]
+        #[kani::stub(tracing::dispatcher::get_default, dispatcher_get_default_stub)]
+        #[kani::stub(tracing::span::Span::new, span_new_stub)]
+        fn $name() {
+            outcome_body($empty);
+        }
+    };
+}
+
+outcome_harness!(c02_failure_outcome_returns_prev_data, false);
+outcome_harness!(c02_failure_outcome_empty_prev_data, true);
 
 #[kani::proof]
 #[kani::unwind(8)]
